@@ -119,11 +119,11 @@ def gen_program(r, max_instr=40):
             "flavour": "program", "len": len(code)}
 
 
-def run_python(prog, nsteps):
+def run_python(prog, nsteps, fill=None):
     """-> list of per-step records."""
     from . import pyexec
     from sc62015.pysc62015.emulator import RegisterName
-    emu, mem, regs = pyexec.make_emu(prog)
+    emu, mem, regs = pyexec.make_emu(prog, fill=fill)
     out = []
     for _ in range(nsteps):
         pc = regs.get(RegisterName.PC)
